@@ -84,9 +84,11 @@ def features(F, b):
                         acc.append((x, d))
                     elif s['rv']['op'].startswith('Sub'):
                         dec.append((x, d))
-                if s['k'] == 'assign' and s['rv']['k'] == 'bin' and s['rv']['op'] in ('Ge', 'Gt', 'Le', 'Lt') \
-                        and describe(b, s['rv']['a'], at=x) == '(*self).fractional_position':
-                    cmpw.append('%s(%s)' % (s['rv']['op'], describe(b, s['rv']['b'])))
+                if s['k'] == 'assign' and s['rv']['k'] == 'bin' and s['rv']['op'] in ('Ge', 'Gt', 'Le', 'Lt'):
+                    if describe(b, s['rv']['a'], at=x) == '(*self).fractional_position':
+                        cmpw.append('%s(%s)' % (s['rv']['op'], describe(b, s['rv']['b'])))
+                    elif describe(b, s['rv']['b'], at=x) == '(*self).fractional_position':   # `1.0 <= fractional_position`
+                        cmpw.append('%s(%s)' % ({'Le': 'Ge', 'Lt': 'Gt', 'Ge': 'Le', 'Gt': 'Lt'}[s['rv']['op']], describe(b, s['rv']['a'])))
         import re
         f['accumulate'] = [re.sub(r'(std|core)::f64::<impl f64>::(abs|max)\(', 'RATE(', re.sub(r', 0\.0\)', ')', d)) for _, d in acc]
         f['rate_sanitiser'] = ['abs' if 'f64>::abs(' in d else ('max0' if 'f64>::max(' in d and ', 0.0)' in d else 'none') for _, d in acc]
@@ -294,7 +296,7 @@ def frame_source(F, R):
         if not ret.startswith('std::result::Result::Ok('):
             kinds.add('err')
             continue
-        past_end = any(desc.startswith('Ge(index, Sub(') and bool_label(lab) is True for _, desc, lab in p.decisions)
+        past_end = any(desc.startswith('Le(Sub(') and desc.endswith(', index)') and bool_label(lab) is True for _, desc, lab in p.decisions)   # index >= end - start
         if 'const frame::Frame::ZERO' in ret:
             kinds.add('zero')
             if not past_end:
